@@ -106,7 +106,8 @@ package lru
 //@     invariant forall(j, K, old(has(p.items.vals, j)) ==> keyOf(p.mapToInnerKeyF, old(p.items.aval(j)).pk) == j)
 
 //@ func NewECache(maxSize int, toComparableF MapToInnerKeyF[PK, K], createNewF CreatePoolElemF[PK, V], onDeleteF OnDeleteElemF[PK, V]) (*ECache[PK, K, V], error)
-//@   props C08 C11
+//@   props C08 C11 C09
+//@   ensures [C09] maxSize >= 1 && createNewF != nil && toComparableF != nil ==> r0.cwf() && r0.built()
 //@   ensures maxSize < 1 || createNewF == nil ==> r1 != nil && r0 == nil
 //@   ensures maxSize >= 1 && createNewF != nil ==> r1 == nil && fresh(r0) && r0.maxSize == maxSize && r0.createNewF == createNewF && r0.onDeleteF == onDeleteF && r0.mapToInnerKeyF == toComparableF && len(r0.items.vals) == 0
 //@   ensures maxSize >= 1 && createNewF != nil && toComparableF != nil ==> r0.ok()
@@ -179,8 +180,33 @@ package lru
 
 //@ variant C09 func (p *ECache[PK, K, V]) Remove(pk PK) bool
 //@   requires p.built()
-//@   modifies everything
+//@   modifies p.items.head, p.items.vals[*], each(n, *iterable.rlItem[K, pair[PK, V]], n.owner == p.items, n.refCnt, n.key, n.val, n.state, n.next, n.prev, n.owner), p.onDeleteF.dlen, p.onDeleteF.dk, p.onDeleteF.dv
 //@   ensures p.restKept(keyOf(p.mapToInnerKeyF, pk)) && !has(p.items.vals, keyOf(p.mapToInnerKeyF, pk))
 //@   ensures r0 == old(has(p.items.vals, keyOf(p.mapToInnerKeyF, pk))) && len(p.items.vals) == old(len(p.items.vals)) - ite(r0, 1, 0)
 //@   ensures r0 && p.onDeleteF != nil ==> p.logged(old(p.items.aval(keyOf(p.mapToInnerKeyF, pk)).pk), old(p.items.aval(keyOf(p.mapToInnerKeyF, pk)).v))
 //@   ensures !r0 && p.onDeleteF != nil ==> p.logKept()
+
+// Clear under concurrency: one critical section; the in-flight table is not touched
+//@ variant C09 func (p *ECache[PK, K, V]) Clear() int
+//@   devirt *iterable.mapIterator[K, pair[PK, V]]
+//@   requires p.built()
+//@   modifies p.items.head, p.items.vals[*], each(n, *iterable.rlItem[K, pair[PK, V]], n.owner == p.items, n.refCnt, n.key, n.val, n.state, n.next, n.prev, n.owner), p.onDeleteF.dlen, p.onDeleteF.dk, p.onDeleteF.dv
+//@   ensures forall(j, K, !has(p.items.vals, j)) && r0 == old(len(p.items.vals))
+// every resident entry is passed to the delete callback exactly once: as many log entries as residents, each the pair of a resident, no key twice
+//@   ensures p.onDeleteF != nil ==> p.onDeleteF.dlen == old(p.onDeleteF.dlen) + r0 && forall(i, int, i < old(p.onDeleteF.dlen) ==> p.onDeleteF.dk[i] == old(p.onDeleteF.dk[i]) && p.onDeleteF.dv[i] == old(p.onDeleteF.dv[i]))
+//@   ensures p.onDeleteF != nil ==> forall(i, old(p.onDeleteF.dlen), p.onDeleteF.dlen, p.logIsOld(i))
+//@   ensures p.onDeleteF != nil ==> forall(i, old(p.onDeleteF.dlen), p.onDeleteF.dlen, forall(i2, i + 1, p.onDeleteF.dlen, keyOf(p.mapToInnerKeyF, p.onDeleteF.dk[i]) != keyOf(p.mapToInnerKeyF, p.onDeleteF.dk[i2])))
+//@   loop 1
+//@     invariant p != nil && p.items == old(p.items) && p.items.wf() && p.maxSize == old(p.maxSize) && p.onDeleteF == old(p.onDeleteF) && p.createNewF == old(p.createNewF) && p.mapToInnerKeyF == old(p.mapToInnerKeyF) && p.inflight == old(p.inflight) && p.built() && forall(j, K, has(p.inflight, j) == old(has(p.inflight, j)) && p.inflight[j] == old(p.inflight[j]))
+//@     invariant it != nil && typeIs(it, *iterable.mapIterator[K, pair[PK, V]]) && cast(*iterable.mapIterator[K, pair[PK, V]], it).im == p.items && p.items.holds(cast(*iterable.mapIterator[K, pair[PK, V]], it).ptr)
+//@     invariant forall(n, *iterable.rlItem[K, pair[PK, V]], p.items.owns(n) ==> n.refCnt == ite(n == cast(*iterable.mapIterator[K, pair[PK, V]], it).ptr, 1, 0), n.owner)
+//@     invariant forall(j, K, has(p.items.vals, j) == (old(has(p.items.vals, j)) && old(p.items.aord(j)) >= cast(*iterable.mapIterator[K, pair[PK, V]], it).ptr.ord))
+//@     invariant forall(j, K, has(p.items.vals, j) ==> p.items.aval(j) == old(p.items.aval(j)) && p.items.aord(j) == old(p.items.aord(j)))
+//@     invariant 0 <= removed && removed == old(len(p.items.vals)) - len(p.items.vals)
+//@     invariant p.onDeleteF != nil ==> p.onDeleteF.dlen == old(p.onDeleteF.dlen) + removed && forall(i, int, i < old(p.onDeleteF.dlen) ==> p.onDeleteF.dk[i] == old(p.onDeleteF.dk[i]) && p.onDeleteF.dv[i] == old(p.onDeleteF.dv[i]))
+//@     invariant p.onDeleteF != nil ==> forall(i, old(p.onDeleteF.dlen), p.onDeleteF.dlen, p.logIsOld(i))
+//@     invariant p.onDeleteF != nil ==> forall(i, old(p.onDeleteF.dlen), p.onDeleteF.dlen, !has(p.items.vals, keyOf(p.mapToInnerKeyF, p.onDeleteF.dk[i])))
+//@     invariant forall(j, K, has(p.items.vals, j) ==> old(has(p.items.vals, j)) && keyOf(p.mapToInnerKeyF, p.items.aval(j).pk) == j)
+//@     invariant p.onDeleteF != nil ==> forall(i, old(p.onDeleteF.dlen), p.onDeleteF.dlen, forall(i2, i + 1, p.onDeleteF.dlen, keyOf(p.mapToInnerKeyF, p.onDeleteF.dk[i]) != keyOf(p.mapToInnerKeyF, p.onDeleteF.dk[i2])))
+//@     invariant forall(j, K, old(has(p.items.vals, j)) ==> keyOf(p.mapToInnerKeyF, old(p.items.aval(j)).pk) == j)
+
